@@ -54,7 +54,7 @@ fn exec(m: &mut Matcher, op: &Op, n: usize) -> Res {
 }
 
 /// resolve a random op list against a private engine (tokens are taken from its own masks)
-fn plan(rng: &mut Rng, m: &mut Matcher, v: &Vocab, len: usize) -> (Vec<Op>, Vec<Res>) {
+fn plan(rng: &mut Rng, m: &mut Matcher, v: &Vocab, len: usize, hot: &[u8]) -> (Vec<Op>, Vec<Res>) {
     let mut ops = vec![];
     let mut res = vec![];
     let mut depth = 0usize;
@@ -68,6 +68,23 @@ fn plan(rng: &mut Rng, m: &mut Matcher, v: &Vocab, len: usize) -> (Vec<Op>, Vec<
             0 | 1 => Op::Mask,
             2..=5 => {
                 let Ok(mask) = m.deep_clone().compute_mask() else { break };
+                // grammars that name their "hot" bytes (lexeme terminators etc.): prefer tokens made of them
+                let hot_toks: Vec<u32> = if hot.is_empty() || !rng.chance(2, 3) {
+                    vec![]
+                } else {
+                    mask_list(&mask, v.n()).into_iter().filter(|&t| { let w = &v.words[t as usize]; !w.is_empty() && w.len() <= 2 && w.iter().all(|b| hot.contains(b)) }).collect()
+                };
+                if !hot_toks.is_empty() {
+                    let t = *rng.pick(&hot_toks);
+                    let op = Op::Commit(t);
+                    let r = exec(m, &op, v.n());
+                    if let Res::Ok(true) = r {
+                        depth += 1;
+                    }
+                    ops.push(op);
+                    res.push(r);
+                    continue;
+                }
                 match walker::choose(rng, &mask, v, walker::Policy::Extending) {
                     Some(t) => Op::Commit(t),
                     None => break,
@@ -164,6 +181,7 @@ fn base_engine(rng: &mut Rng, g: &GCase, v: &Vocab) -> Option<(Matcher, Vec<u32>
 fn enum_case(ctx: &mut Ctx, idx: u64) {
     let mut rng = ctx.case_rng(idx);
     let (g, v) = pick_case(&mut rng, idx);
+    let hot: Vec<u8> = g.tags.iter().find_map(|t| t.strip_prefix("hot:")).map(|h| h.as_bytes().to_vec()).unwrap_or_default();
     let Some((base, hist0)) = base_engine(&mut rng, &g, &v) else { return };
     let shape: &[usize] = match rng.below(3) {
         0 => &[4, 4],
@@ -177,7 +195,7 @@ fn enum_case(ctx: &mut Ctx, idx: u64) {
     let mut plans = vec![];
     for &len in &shape {
         let mut p = base.deep_clone();
-        let (ops, res) = plan(&mut rng, &mut p, &v, len);
+        let (ops, res) = plan(&mut rng, &mut p, &v, len, &hot);
         plans.push((ops, res));
     }
     let lens: Vec<usize> = plans.iter().map(|p| p.0.len()).collect();
@@ -264,6 +282,7 @@ fn install_sched_hook() {
 fn thread_case(ctx: &mut Ctx, idx: u64) {
     let mut rng = ctx.case_rng(idx);
     let (g, v) = pick_case(&mut rng, idx);
+    let hot: Vec<u8> = g.tags.iter().find_map(|t| t.strip_prefix("hot:")).map(|h| h.as_bytes().to_vec()).unwrap_or_default();
     let Some((mut base, hist0)) = base_engine(&mut rng, &g, &v) else { return };
     let n_clones = 2 + rng.below(ctx.pick(7, 15));
     let op_len = ctx.pick(10, 24);
@@ -280,7 +299,7 @@ fn thread_case(ctx: &mut Ctx, idx: u64) {
     let mut plans = vec![];
     for (e, _) in &engines {
         let mut p = e.deep_clone();
-        let (ops, res) = plan(&mut rng, &mut p, &v, op_len);
+        let (ops, res) = plan(&mut rng, &mut p, &v, op_len, &hot);
         plans.push((ops, res));
     }
     LOCK_ORDER.lock().unwrap().clear();
@@ -350,6 +369,7 @@ fn par_case(ctx: &mut Ctx, idx: u64) {
     use std::ffi::CString;
     let mut rng = ctx.case_rng(idx);
     let (g, v) = pick_case(&mut rng, idx);
+    let hot: Vec<u8> = g.tags.iter().find_map(|t| t.strip_prefix("hot:")).map(|h| h.as_bytes().to_vec()).unwrap_or_default();
     if g.text.contains('\0') {
         return;
     }
